@@ -221,6 +221,9 @@ RULE = ("(1) direct calls LimitManager::new(max, check_every, reset_seconds) + r
         "(no port, server never up, schedule missed) is reported as harness trouble, retried by the runner and counted as not executed "
         "(more than MAX_NOT_EXECUTED fail the run). Ports are reserved in the ephemeral range by a bound SO_REUSEPORT socket held for the "
         "life of the server. "
+        "(2a) the same histories (floods of 3*max+2 and 101, drop-then-others, random, accept errors, shutdown) against a TLS listener with every "
+        "client connection being one HTTP/2 connection (self-signed certificate, ALPN h2; a connection dropped at accept shows as a failed "
+        "TLS handshake, a dropped request as a reset of the connection). "
         "(2b) events (limiter.server_ev): between the connections accept() is made to fail n times on the real listener (RLIMIT_NOFILE is "
         "lowered to 0 after the client socket exists; the hook points al.top / al.got of the accept loop count the failed iterations and "
         "give the descriptors back at the n-th) for n = 1, 2, 50, 99, 100 (served), 100+100+100 separated by accepted connections — also "
@@ -256,9 +259,9 @@ ASSUMPTIONS = [
     "instance of the modelled loop with its own failure counter; calls of the other instances on the shared limiters are events "
     "(`Other`) of the model. The server theorems serialise the accept loop and its connection tasks (sequential clients); concurrent "
     "clients are run against the consequence of the concurrent theorems only (bystanders within every maximum are always served). "
-    "QUIC time-outs and `Other` events are events of the model and of the theorems but not of the differential run; HTTP/2 and TLS "
-    "connections are not run (the limiter branch of handle_connection is the same code for every protocol; `Drop => return` then ends "
-    "all streams of the connection)",
+    "QUIC time-outs and `Other` events are events of the model and of the theorems but not of the differential run; HTTP/3 is not run "
+    "(the limiter branch of handle_connection is the same code for every protocol); over TLS the host is chosen by the SNI name of the "
+    "connection, so several hosts are only run over HTTP/1 without TLS",
     "accept errors are provoked as EMFILE; the loop treats every io::Error of accept() alike (no inspection of the kind for TCP)",
 ]
 TRUSTED = ["modelled: src/limiting.rs LimitManager::{new, default, set_max_requests, set_check_every, set_reset_seconds, disable, register} "
@@ -327,7 +330,7 @@ def opcase(ctor, ops, kind, profiles=PROFILES):
 
 
 # ---- server ---------------------------------------------------------------------------------
-# pre: None | ("own", mx, ce, reset) | ("clone", mx, ce, reset);  bind: 0 IPv4 only, 1 dual stack
+# pre: None | ("own", mx, ce, reset) | ("clone", mx, ce, reset);  bind: 0 IPv4 only, 1 dual stack, 2 IPv6 only, 3 TLS + HTTP/2 (IPv4)
 def srv(mx, ce, reset, conns, kind, profile="dev", path=0, pre=None, bind=0):
     if pre is None:
         xp = xl()
@@ -500,9 +503,11 @@ def gen_server(rng, quick):
     k = 0
     # ---- floods around every constant of the accept loop; IPv4-only, both listeners, IPv6-only (v4-mapped peers) ----
     lengths = [1, 8, 99, 100, 101, 150, 300, 700] + ([] if quick else [102, 200, 201, 202, 400, 1000, 2500])
-    for bind in (0, 1, 2):
+    for bind in (0, 1, 2, 3):       # 3: TLS, every client connection is one HTTP/2 connection
         for n in lengths:
             if bind == 2 and quick and n not in (8, 101, 300):
+                continue
+            if bind == 3 and (n not in (8, 101) if quick else n > 300):
                 continue
             mx = 2
             n = 3 * mx + 2 if n == 8 else n
@@ -525,6 +530,11 @@ def gen_server(rng, quick):
     for mx in ((1, 2) if quick else (0, 1, 2, 5)):
         cases += srv(mx, 1, HOUR, drop_then_other(mx), "server-drop-then-others")
         cases += srv(mx, 1, HOUR, drop_then_other(mx), "server-drop-then-others", "nochk", path=1, bind=1)
+    for mx in ((2,) if quick else (0, 1, 2, 5)):
+        cases += srv(mx, 1, HOUR, drop_then_other(mx), "server-h2", PROFILES[mx % 2], path=mx % 2, bind=3)
+    cases += srv(3, 2, HOUR, [(0, 0, 30), (1, 0, 3), (0, 0, 2), (0, 0, 1, 4), (1, 0, 1)], "server-h2", bind=3)
+    cases += srv(2, 1, HOUR, [(0, 0, 1), ("errs", 100), (1, 0, 2), ("errs", 101), (1, 0, 1), (0, 0, 1)], "server-h2", "nochk", bind=3)
+    cases += srv(2, 1, HOUR, [(0, 0, 9), (0, 0, 1), (1, 0, 2), ("shutdown",), (1, 0, 1)], "server-h2", bind=3)
     # the missed class on a Host: Default (10, 10, 10 s) tuned with the setters, driven past both rungs
     cases += srv(2, 1, HOUR, [(0, 0, 40), (0, 0, 1), (1, 0, 1)], "server-setters", "dev", path=1)
     cases += srv(20, 1, HOUR, [(0, 0, 70), (0, 0, 1), (1, 0, 1)], "server-setters", "nochk", path=1)
@@ -548,18 +558,18 @@ def gen_server(rng, quick):
             conns.append(c + (rng.randrange(2, 12),) if rng.random() < 0.15 else c)
         pre = rng.choice([None, None, None, ("own", rng.randrange(0, 4), rng.choice([1, 2]), HOUR),
                           ("clone", rng.randrange(0, 4), rng.choice([1, 2]), rng.choice([HOUR, "inf"]))])
-        cases += srv(mx, ce, reset, conns, "server-random", PROFILES[i % 2], path=rng.randrange(2), pre=pre, bind=rng.randrange(3))
+        cases += srv(mx, ce, reset, conns, "server-random", PROFILES[i % 2], path=rng.randrange(2), pre=pre, bind=rng.randrange(4))
     return cases
 
 
-def hsrv(mx, ce, reset, extra, evs, kind, profile="dev", path=0, pre=None):
+def hsrv(mx, ce, reset, extra, evs, kind, profile="dev", path=0, pre=None, bind=0):
     """A collection of 1 + len(extra) hosts; evs: (addr, wait_ms, [target, ...]) | ("errs", n) | ("shutdown",); target i = the i-th
     host, 99 = a name that no host has."""
     if pre is None:
         xp = xl()
     else:
         xp = xl(xn(0 if pre[0] == "own" else 1), cfg(pre[1], pre[2], pre[3]))
-    sconf = xl(xn(path), cfg(mx, ce, reset), xp, xn(0), xlist([cfg(*e) for e in extra]))
+    sconf = xl(xn(path), cfg(mx, ce, reset), xp, xn(bind), xlist([cfg(*e) for e in extra]))
     xe = []
     for e in evs:
         if e[0] == "errs":
@@ -1171,7 +1181,7 @@ LEVEL_NOTE = ("Trusted: Coq kernel, extraction (ExtrOcamlBasic) reduced by an in
               "independent Python reference checks the same outputs without the model). Not proved: for check_every >= 2 or with resets "
               "concurrent executions are not linearisable (witness ex_sampling_race) - only the per-address upper bound holds there; the "
               "accept loop running concurrently with its connection tasks is serialised in the server theorems; weak-memory effects, f64 "
-              "rounding of reset_seconds, HTTP/2 / TLS connections and a wall clock stepping back on the real code are outside the "
+              "rounding of reset_seconds, HTTP/3 and a wall clock stepping back on the real code are outside the "
               "differential run. No axioms.")
 TECHNIQUE = "Coq proof (refinement of the reference counter for all histories incl. configuration changes, all accept-event lists and several hosts; invariants over every interleaving of a small-step concurrent model) + differential correspondence model vs. implementation (direct calls on 1-8 threads, real loopback servers with provoked accept errors) + model-independent oracles"
 KERNEL_SAMPLE = 30
